@@ -1086,7 +1086,9 @@ class LongItmdVariants(dict):
 
             is_new_remainder = False
             # possibly we got another -1 from matching the remainder
+            # (both prefactors refer to the already stored remainder)
             prefactor *= factor
+            unit_factorization_pref *= factor
 
             # next, we can separate them according to the itmd_positions
             # so we can later build intermediate variants more efficient
